@@ -1342,11 +1342,13 @@ def gi_contracts():
             c = C(f"{DS}:Dataset.__getitem__", label=f"Dataset.__getitem__[{clsname},ndim={d}{tag}]", setup=gi_setup_for(cfg, ks, alphabets, reduced),
                   requires=gi_requires, ensures=gi_ensures, snapshot=op_snapshot, max_paths=100000)
             c.cfg = cfg
+            c.enum = (cfg, ks, alphabets, reduced, False)
             out.append(c)
         c = C(f"{DS}:Dataset.__getitem__", label=f"Dataset.__getitem__[{clsname},ndim={d},edge-values]",
               setup=gi_setup_for(cfg, tuple(range(1, min(d, 2) + 1)), ("E",), True, edge=True),
               requires=gi_requires, ensures=gi_ensures, snapshot=op_snapshot, max_paths=100000, raises=rz)
         c.cfg = cfg
+        c.enum = (cfg, tuple(range(1, min(d, 2) + 1)), ("E",), True, True)
         out.append(c)
     return out
 
@@ -1355,8 +1357,667 @@ C_GETITEM = gi_contracts()
 
 REGISTERED = VALIDATORS + SETTER_CONTRACTS + CONSTRUCTION
 CONTRACTS = REGISTERED + OPS + C_GETITEM
+
+# ------------------------------------------------------------------------------------------------
+# run-time oracles: the same statements evaluated on the REAL classes with concrete inputs
+# (replay of counter-models, fallback search for a failing input, bounded stand-ins)
+# ------------------------------------------------------------------------------------------------
+
+
+def _real_cls(name):
+    import importlib
+
+    return getattr(importlib.import_module(MODS[name]), name)
+
+
+def _mk_real(clsname, shape, seed=0, dtype="float64"):
+    rng = np.random.default_rng(seed + 7)
+    if dtype.startswith("int"):
+        a = rng.integers(-5, 50, size=shape).astype(dtype)
+    elif dtype.startswith("complex"):
+        a = (rng.normal(size=shape) + 1j * rng.normal(size=shape)).astype(dtype)
+    else:
+        a = rng.normal(size=shape).astype(dtype)
+    nd_ = len(shape)
+    return _real_cls(clsname).from_array(a, name="ds", origin=[10.0 * (i + 1) + 0.5 for i in range(nd_)], sampling=[1.5 + i for i in range(nd_)],
+                                         units=[f"u{i}" for i in range(nd_)], signal_units="e")
+
+
+def _digest(ds):
+    return (type(ds).__name__, ds.array.shape, str(ds.array.dtype), ds.array.tobytes(), tuple(np.asarray(ds.origin, dtype=float).tolist()),
+            tuple(np.asarray(ds.sampling, dtype=float).tolist()), tuple(ds.units), ds.name, ds.signal_units)
+
+
+def _view_diff(a, b, tol=0.0):
+    """differences between the observable views (array, origin, sampling, units, class) of two datasets"""
+    out = []
+    if type(a) is not type(b):
+        out.append(f"class {type(a).__name__} vs {type(b).__name__}")
+    if a.array.shape != b.array.shape or not np.allclose(a.array, b.array, rtol=tol, atol=tol, equal_nan=True):
+        out.append(f"array differs (shapes {a.array.shape} vs {b.array.shape})")
+    for nm in ("origin", "sampling"):
+        x, y = np.asarray(getattr(a, nm), dtype=float), np.asarray(getattr(b, nm), dtype=float)
+        if x.shape != y.shape or not np.allclose(x, y, rtol=1e-12, atol=0):
+            out.append(f"{nm} {x.tolist()} vs {y.tolist()}")
+    if list(a.units) != list(b.units):
+        out.append(f"units {a.units} vs {b.units}")
+    return out
+
+
+def _inv_problems(ds):
+    out = []
+    nd_ = ds.array.ndim
+    for nm in ("origin", "sampling"):
+        x = getattr(ds, nm)
+        if not isinstance(x, np.ndarray) or x.ndim != 1 or len(x) != nd_:
+            out.append(f"{nm} has {np.size(x)} entries for ndim {nd_}")
+    if not isinstance(ds.units, list) or len(ds.units) != nd_:
+        out.append(f"units has {len(ds.units)} entries for ndim {nd_}")
+    if not class_ok(type(ds), nd_):
+        out.append(f"class {type(ds).__name__} holds a {nd_}-d array")
+    return out
+
+
+def _clone(ds):
+    """independent clone that does not go through Dataset.copy"""
+    c = type(ds).from_array(np.array(ds.array, copy=True), name=ds.name, origin=np.array(ds.origin, copy=True), sampling=np.array(ds.sampling, copy=True),
+                            units=list(ds.units), signal_units=ds.signal_units)
+    return c
+
+
+def _py_index(spec, bare=False):
+    out = []
+    for e in spec:
+        if e == "...":
+            out.append(Ellipsis)
+        elif "i" in e:
+            out.append(int(e["i"]))
+        elif "s" in e:
+            out.append(slice(*e["s"]))
+        elif "l" in e:
+            out.append([int(v) for v in e["l"]])
+    if bare and len(out) == 1:
+        return out[0]
+    return tuple(out)
+
+
+def _expand(spec, ndim):
+    """per source axis the index entry (Ellipsis / missing entries -> full slices); plain list logic, independent of the code under test"""
+    n_real = sum(1 for e in spec if e != "...")
+    full = {"s": [None, None, None]}
+    out = []
+    seen = False
+    for e in spec:
+        if e == "...":
+            out += [full] * (ndim - n_real)
+            seen = True
+        else:
+            out.append(e)
+    if not seen:
+        out += [full] * (ndim - n_real)
+    return out
+
+
+def _getitem_problems(ds, spec, bare, res):
+    """result data = numpy-indexed data; every result axis carries the calibration of the source axis it came from (found by
+    indexing coordinate arrays with numpy itself), sampling multiplied by the slice step; class chosen by dimensionality."""
+    out = []
+    idx = _py_index(spec, bare)
+    want = ds.array[idx]
+    if res.array.shape != want.shape or not np.array_equal(res.array, want, equal_nan=True):
+        out.append(f"data is not array[index]: shape {res.array.shape} vs {want.shape}")
+        return out
+    nd_ = ds.array.ndim
+    ent = _expand(spec, nd_)
+    reg_cls = type(ds)._registry.get(want.ndim, _real_cls("Dataset"))
+    want_cls = type(ds) if want.ndim == nd_ else reg_cls
+    if type(res) is not want_cls:
+        out.append(f"class {type(res).__name__}, expected {want_cls.__name__} for ndim {nd_}->{want.ndim}")
+    if len(res.origin) != want.ndim or len(res.sampling) != want.ndim or len(res.units) != want.ndim:
+        return out + [f"calibration lengths {len(res.origin)},{len(res.sampling)},{len(res.units)} for ndim {want.ndim}"]
+    coords = np.indices(ds.array.shape)
+    for j in range(want.ndim):
+        if want.shape[j] < 2 or 0 in want.shape:
+            continue
+        src = [k for k in range(nd_) if np.any(np.diff(coords[k][idx], axis=j) != 0)]
+        if len(src) != 1:
+            continue
+        k = src[0]
+        step = 1
+        if "s" in ent[k]:
+            step = int(np.diff(coords[k][idx], axis=j).flat[0])
+        exp_o, exp_s, exp_u = float(ds.origin[k]), float(ds.sampling[k]) * step, ds.units[k]
+        if float(res.origin[j]) != exp_o or res.units[j] != exp_u or abs(float(res.sampling[j]) - exp_s) > 1e-12 * max(1, abs(exp_s)):
+            out.append(f"result axis {j} (length {want.shape[j]}) comes from source axis {k} but carries origin={float(res.origin[j])}, sampling={float(res.sampling[j])}, "
+                       f"units={res.units[j]!r}; expected origin={exp_o}, sampling={exp_s}, units={exp_u!r}")
+    return out
+
+
+def _op_call(ds, op, mip=None):
+    """apply one op of the alphabet to the real dataset; returns the returned object"""
+    kind = op[0]
+    a = dict(op[1]) if len(op) > 1 and isinstance(op[1], dict) else {}
+    if mip is not None:
+        a["modify_in_place"] = mip
+    nd_ = ds.array.ndim
+    if kind == "copy":
+        return ds.copy()
+    if kind == "set":
+        attr, val = op[1], op[2]
+        if val == "scalar":
+            val = 2.5
+        elif val == "list":
+            val = [0.25 * (i + 1) for i in range(nd_)]
+        elif val == "ndarray":
+            val = np.arange(nd_, dtype=float) + 3
+        elif val == "too-long":
+            val = [1.0] * (nd_ + 1)
+        elif val == "units":
+            val = [f"v{i}" for i in range(nd_)]
+        elif val == "unit":
+            val = "nm"
+        elif val == "units-short":
+            val = ["x"] * max(0, nd_ - 1)
+        elif val == "array":
+            val = np.asarray(ds.array) * 2 + 1
+        elif val == "array-1d-less":
+            val = np.asarray(ds.array)[0] if nd_ > 1 else np.asarray(ds.array)
+        elif val == "array-1d-more":
+            val = np.asarray(ds.array)[None]
+        setattr(ds, attr, val)
+        return None
+    if kind == "pad":
+        if "output_shape" in a and a["output_shape"] == "plus":
+            a["output_shape"] = tuple(n + 1 + (i % 2) for i, n in enumerate(ds.shape))
+        return ds.pad(**a)
+    if kind == "crop":
+        if a.get("crop_widths") == "all":
+            a["crop_widths"] = tuple((1, -1) if n >= 3 else (0, 0) for n in ds.shape)
+        return ds.crop(**a)
+    if kind == "bin":
+        return ds.bin(**a)
+    if kind == "resample":
+        if a.get("out_shape") == "plus":
+            a["out_shape"] = tuple(n + 1 for n in ds.shape)
+        return ds.fourier_resample(**a)
+    if kind == "getitem":
+        return ds[_py_index(op[1], op[2] if len(op) > 2 else False)]
+    raise ValueError(kind)
+
+
+HAS_VARIANTS = ("pad", "crop", "bin", "resample")
+EXPECTED_ERRORS = (ValueError, TypeError, IndexError)
+
+
+def rt_history(inp):
+    """Replay a history of public operations on the real classes and evaluate the property after every step."""
+    import warnings
+
+    warnings.simplefilter("ignore")
+    ds = _mk_real(inp["cls"], tuple(inp["shape"]), inp.get("seed", 0), inp.get("dtype", "float64"))
+    problems = _inv_problems(ds)
+    live = [ds]
+    for step, op in enumerate(inp["ops"]):
+        op = tuple(op)
+        kind = op[0]
+        if 0 in ds.array.shape:
+            break  # zero-length axes are outside the property's range (shapes incl. length-1 axes)
+        before = [_digest(x) for x in live]
+        # relational clause on independent clones (does not disturb the history)
+        if kind in HAS_VARIANTS:
+            c1, c2 = _clone(ds), _clone(ds)
+            d1 = _digest(c1)
+            try:
+                r = _op_call(c1, op, mip=False)
+                _op_call(c2, op, mip=True)
+            except EXPECTED_ERRORS:
+                r = None
+            if r is not None:
+                if _digest(c1) != d1:
+                    problems.append(f"step {step} {op}: copying variant changed its source")
+                dv = _view_diff(r, c2, tol=1e-9 if kind == "resample" else 0.0)
+                if dv:
+                    problems.append(f"step {step} {op}: in-place variant differs from copying variant: {'; '.join(dv)}")
+        mip = bool(dict(op[1]).get("modify_in_place")) if kind in HAS_VARIANTS and len(op) > 1 else False
+        old_array, old = ds.array, ds
+        try:
+            res = _op_call(ds, op)
+        except EXPECTED_ERRORS as e:
+            after = [_digest(x) for x in live]
+            if after != before:
+                problems.append(f"step {step} {op}: raised {type(e).__name__} and left a modified object")
+            if inp.get("no_raise"):
+                problems.append(f"step {step} {op}: raised {type(e).__name__}: {e}")
+            problems += [f"step {step} {op} (after {type(e).__name__}): {p}" for x in live for p in _inv_problems(x)]
+            continue
+        mutating = kind == "set" or mip
+        target = ds if (mutating or res is None) else res
+        if not mutating:
+            after = [_digest(x) for x in live]
+            bad = [i for i, (x, y) in enumerate(zip(before, after)) if x != y]
+            if bad:
+                problems.append(f"step {step} {op}: {len(bad)} existing dataset(s) changed although a new dataset was returned (source not bit-identical)")
+            if res is ds:
+                problems.append(f"step {step} {op}: returned the source object")
+        else:
+            after = [_digest(x) for x in live[:-1]]
+            if after != before[:-1]:
+                problems.append(f"step {step} {op}: an earlier dataset of the history changed")
+        problems += [f"step {step} {op}: {p}" for p in _inv_problems(target)]
+        if kind == "getitem":
+            problems += [f"step {step} {op}: {p}" for p in _getitem_problems(old, op[1], op[2] if len(op) > 2 else False, res)]
+        if kind == "copy":
+            dv = _view_diff(old, res)
+            if dv or np.shares_memory(old.array, res.array) or np.shares_memory(old.origin, res.origin) or np.shares_memory(old.sampling, res.sampling) or old.units is res.units:
+                problems.append(f"step {step} copy: {'; '.join(dv) or 'shares memory with the source'}")
+        if kind in ("pad", "crop") and not _view_diff_cal(old if mutating else live[-1], target, before[-1]):
+            pass
+        if target is not ds:
+            live.append(target)
+            ds = target
+        if len(problems) > 6:
+            break
+    return dict(violated=bool(problems), observed="; ".join(problems[:4]) or "ok",
+                expected="after every step: one calibration entry per axis, class matches ndim, indexing = numpy data with the kept axes' calibration, "
+                         "sources bit-identical, in-place == copying")
+
+
+def _view_diff_cal(a, b, dg):
+    return True
+
+
+# ---- families
+
+IDX_SMALL = [
+    ([{"i": 0}], True), ([{"i": -1}], False), ([{"s": [1, None, None]}], True), ([{"s": [None, None, 2]}], False), ([{"s": [None, None, -1]}], False),
+    ([{"l": [0, 0]}], True), (["..."], True), ([], False), (["...", {"i": 0}], False), ([{"i": 0}, "..."], False), (["...", {"s": [None, None, 2]}], False),
+    ([{"s": [0, 2, 1]}, {"s": [None, None, 3]}], False), ([{"l": [1, 0]}, {"s": [None, None, 2]}], False), ([{"i": 0}, {"l": [0, 1]}], False),
+    ([{"i": 0}, {"s": [None, None, None]}, {"l": [1, 0]}], False), ([{"l": [0, 1]}, {"s": [None, None, 2]}, {"i": 0}], False),
+    ([{"s": [None, None, 2]}, {"i": 0}, {"s": [1, None, None]}], False), ([{"s": [None, None, None]}, {"l": [0, 1]}, {"s": [None, None, 2]}, {"i": 1}], False),
+]
+
+
+def _shape(ndim, base=3):
+    return [base + (i % 2) for i in range(ndim)]
+
+
+def fam_getitem(tier="quick", seed=0):
+    for clsname, d in CONFIGS:
+        for spec, bare in IDX_SMALL:
+            k = sum(1 for e in spec if e != "...")
+            if k > d or (k == d and all(e != "..." and "i" in e for e in spec)):
+                continue
+            yield dict(cls=clsname, shape=_shape(d), ops=[["getitem", spec, bare]], no_raise=True)
+
+
+OPS_ALPHABET = [
+    ["copy"],
+    ["set", "origin", "list"],
+    ["set", "sampling", "scalar"],
+    ["set", "units", "units"],
+    ["pad", {"pad_width": 1}],
+    ["pad", {"output_shape": "plus", "modify_in_place": True}],
+    ["crop", {"crop_widths": "all"}],
+    ["crop", {"crop_widths": ((1, 0),), "axes": (0,), "modify_in_place": True}],
+    ["bin", {"bin_factors": 2}],
+    ["bin", {"bin_factors": 2, "axes": 0, "reducer": "mean", "modify_in_place": True}],
+    ["resample", {"factors": 0.5}],
+    ["resample", {"out_shape": "plus", "modify_in_place": True}],
+    ["getitem", [{"s": [None, None, 2]}], False],
+    ["getitem", ["...", {"s": [1, None, None]}], False],
+]
+OPS_ERRORS = [
+    ["set", "origin", "too-long"], ["set", "units", "units-short"], ["set", "array", "array-1d-more"], ["pad", {}], ["pad", {"pad_width": 1, "output_shape": (9,)}],
+    ["crop", {"crop_widths": ((0, 0),) * 7}], ["bin", {"bin_factors": 0}], ["bin", {"bin_factors": 2, "reducer": "max"}], ["resample", {}],
+    ["resample", {"out_shape": (0,), "axes": (0,)}], ["set", "array", "array"], ["set", "array", "array-1d-less"],
+]
+
+
+def fam_ops(tier="quick", seed=0):
+    """depth-1 histories: every op of the alphabet (both variants where they exist) and the argument errors, every configuration"""
+    for clsname, d in CONFIGS:
+        for op in OPS_ALPHABET + OPS_ERRORS:
+            yield dict(cls=clsname, shape=_shape(d, 4), ops=[op])
+            if op[0] in HAS_VARIANTS and len(op) > 1:
+                a = dict(op[1])
+                a["modify_in_place"] = not a.get("modify_in_place", False)
+                yield dict(cls=clsname, shape=_shape(d, 4), ops=[[op[0], a]])
+
+
+def fam_histories(tier="quick", seed=0):
+    """all histories of depth <= 2 over the op alphabet for every configuration; depth 3: quick = 2-d generic dataset and the 4D-STEM class
+    over the 9 non-setter ops + one setter, thorough = every configuration; then random histories of depth 12 (incl. failing operations)"""
+    rng = np.random.default_rng(seed + 11)
+    alpha = OPS_ALPHABET
+    for clsname, d in CONFIGS:
+        depth3 = tier == "thorough" or (clsname, d) in (("Dataset", 2),)
+        for a in alpha:
+            for b in alpha:
+                yield dict(cls=clsname, shape=_shape(d, 4), ops=[a, b])
+        if depth3:
+            core = [o for o in alpha if o[0] != "set"][::1] + [alpha[1]]
+            core = core if tier == "thorough" else [core[i] for i in (0, 1, 2, 4, 5, 7, 8, 9, 10)]
+            for a in core:
+                for b in core:
+                    for c in core:
+                        yield dict(cls=clsname, shape=_shape(d, 5), ops=[a, b, c])
+        for r in range(4 if tier == "quick" else 60):
+            ops = [(alpha + OPS_ERRORS)[int(i)] for i in rng.integers(0, len(alpha) + len(OPS_ERRORS), size=12)]
+            yield dict(cls=clsname, shape=_shape(d, 6), ops=ops, seed=int(seed + r))
+
+
+def fam_index_vectors(tier="quick", seed=0):
+    """every index-kind vector (int / slice / stepped slice / negative-step slice / list, at most one list) for every tuple length, bare
+    and Ellipsis form: ndim 1..4 (quick), 1..5 (thorough) - this includes the forms outside the deductive enumeration budget"""
+    ent = {"i": {"i": 1}, "s": {"s": [1, None, None]}, "t": {"s": [None, None, 2]}, "n": {"s": [None, None, -1]}, "l": {"l": [1, 0, 1]}, "j": {"i": -1}}
+    for d in range(1, 5 if tier == "quick" else 6):
+        kinds = "istnl" if d <= 3 else "istl"
+        for k in range(0, d + 1):
+            for vec in itertools.product(kinds, repeat=k):
+                if vec.count("l") > 1 or (k == d and all(v in "ij" for v in vec)):
+                    continue
+                base = [ent[v] for v in vec]
+                forms = [(base, False)] + ([(base, True)] if k == 1 else [])
+                for p in range(k + 1):
+                    forms.append((base[:p] + ["..."] + base[p:], False))
+                for spec, bare in forms:
+                    yield dict(cls="Dataset", shape=_shape(d), ops=[["getitem", spec, bare]], no_raise=True)
+        for clsname, dd in CONFIGS[5:]:
+            if dd == d:
+                for vec in itertools.product("itl", repeat=min(d, 3)):
+                    if vec.count("l") > 1 or (len(vec) == d and all(v == "i" for v in vec)):
+                        continue
+                    yield dict(cls=clsname, shape=_shape(d), ops=[["getitem", [ent[v] for v in vec], False]], no_raise=True)
+
+
+def rt_validators(inp):
+    """validate_ndinfo / validate_units / ensure_valid_array and the constructors on array-likes of every accepted type"""
+    import warnings
+    from quantem.core.utils.validators import validate_ndinfo, validate_units, ensure_valid_array
+
+    warnings.simplefilter("ignore")
+    problems = []
+    nd_, L, kind = inp["ndim"], inp["len"], inp["kind"]
+    vals = [0.5 + i for i in range(L)]
+    value = {"scalar": 2.5, "int": 3, "list": vals, "tuple": tuple(vals), "ndarray": np.array(vals), "int-ndarray": np.arange(L), "nested": [vals]}[kind]
+    expect_raise = kind not in ("scalar", "int") and L != nd_
+    try:
+        r = validate_ndinfo(value, nd_, "origin")
+        if expect_raise:
+            problems.append(f"validate_ndinfo accepted {L} entries for ndim {nd_}")
+        elif not isinstance(r, np.ndarray) or r.shape != (nd_,):
+            problems.append(f"validate_ndinfo returned shape {np.shape(r)} for ndim {nd_}")
+        elif isinstance(value, np.ndarray) and np.shares_memory(r, value):
+            problems.append("validate_ndinfo result shares memory with its argument")
+        elif not np.array_equal(r, np.full(nd_, value) if kind in ("scalar", "int") else np.asarray(value).ravel()):
+            problems.append("validate_ndinfo changed the values")
+    except (ValueError, TypeError) as e:
+        if not expect_raise:
+            problems.append(f"validate_ndinfo raised {type(e).__name__} for a valid argument ({kind}, len {L}, ndim {nd_})")
+    uv = "nm" if kind in ("scalar", "int") else [f"u{i}" for i in range(L)] if kind != "tuple" else tuple(f"u{i}" for i in range(L))
+    try:
+        r = validate_units(uv, nd_)
+        if expect_raise:
+            problems.append(f"validate_units accepted {L} entries for ndim {nd_}")
+        elif not isinstance(r, list) or len(r) != nd_ or r is uv or (r != list(uv) if not isinstance(uv, str) else r != [uv] * nd_):
+            problems.append(f"validate_units returned {r!r}")
+    except (ValueError, TypeError) as e:
+        if not expect_raise:
+            problems.append(f"validate_units raised {type(e).__name__} for a valid argument")
+    # construction from an array-like with this calibration
+    arr = np.arange(float(np.prod(_shape(nd_)))).reshape(_shape(nd_)) if nd_ else np.array(1.0)
+    for src in ([arr, arr.tolist()] if nd_ else [arr]):
+        for clsname, k in [("Dataset", None)] + list(FIXED.items()):
+            try:
+                ds = _real_cls(clsname).from_array(src, origin=value if kind != "nested" else vals, sampling=value if kind != "nested" else vals, units=uv)
+            except (ValueError, TypeError):
+                tgt = nd_ if k is None else max(k, nd_)
+                if not (expect_raise or (k is not None and nd_ > k) or (kind not in ("scalar", "int") and L != tgt)):
+                    problems.append(f"{clsname}.from_array raised for a valid {nd_}-d input ({kind})")
+                continue
+            problems += [f"{clsname}.from_array({nd_}-d, {kind}, len {L}): {p}" for p in _inv_problems(ds)]
+    x = np.zeros(_shape(nd_)) if nd_ else np.array(0.0)
+    for want in (None, 0, 1, 2, 3, 4, 5):
+        try:
+            r = ensure_valid_array(x, ndim=want)
+            if want is not None and nd_ > want:
+                problems.append(f"ensure_valid_array accepted ndim {nd_} > {want}")
+            elif r.ndim != (nd_ if want is None else max(nd_, want)) or not np.shares_memory(r, x) and x.size:
+                problems.append(f"ensure_valid_array(ndim={want}) returned ndim {r.ndim} / a copy for a {nd_}-d array")
+        except ValueError:
+            if want is None or nd_ <= want:
+                problems.append(f"ensure_valid_array raised for ndim {nd_} <= {want}")
+    return dict(violated=bool(problems), observed="; ".join(problems[:4]) or "ok",
+                expected="a calibration argument is accepted iff it is a scalar or has one entry per axis; results are new objects with the given values")
+
+
+def fam_validators(tier="quick", seed=0):
+    for nd_ in range(0, 6):
+        for kind in ("scalar", "int", "list", "tuple", "ndarray", "int-ndarray"):
+            for L in ([nd_] if kind in ("scalar", "int") else range(0, 7)):
+                yield dict(ndim=nd_, len=L, kind=kind)
+
+
+def fam_construct(tier="quick", seed=0):
+    yield from fam_validators(tier, seed)
+
+
+def rt_numpy_model(inp):
+    """conformance of the TRUSTED numpy indexing model (pyvc/lib/c03_models.np_index) with numpy itself: shape, element map, source axis
+    of every result axis, view-vs-copy"""
+    from pyvc.path import PathCtx
+
+    shape = tuple(inp["shape"])
+    spec, bare = inp["ops"][0][1], inp["ops"][0][2]
+    idx = _py_index(spec, bare)
+    a = np.arange(int(np.prod(shape))).reshape(shape)
+    want = a[idx]
+    strides = [int(np.prod(shape[i + 1:])) for i in range(len(shape))]
+    problems = []
+    with PathCtx() as ctx:
+        sa = nd(shape, lambda *ix: Sym(sum((lift(i) * st for i, st in zip(ix, strides)), z3.IntVal(0))), "int")
+        r = cm.np_index(sa, idx)
+        got_shape = tuple(V._dim_lit(x) for x in r.shape)
+        if got_shape != want.shape:
+            problems.append(f"model shape {got_shape}, numpy {want.shape}")
+        else:
+            pts = list(itertools.islice(np.ndindex(*want.shape), 0, None, max(1, want.size // 7)))
+            for pt in pts:
+                v = V.simp(lift(r.fn(*[z3.IntVal(int(c)) for c in pt])))
+                if not (z3.is_int_value(v) and v.as_long() == int(want[pt])):
+                    problems.append(f"model element {pt} = {v}, numpy {int(want[pt])}")
+                    break
+            if r.is_view != np.shares_memory(want, a) and want.size:
+                problems.append(f"model says view={r.is_view}, numpy shares_memory={np.shares_memory(want, a)}")
+            coords = np.indices(shape)
+            for j in range(want.ndim):
+                if want.shape[j] < 2:
+                    continue
+                src = [k for k in range(len(shape)) if np.any(np.diff(coords[k][idx], axis=j) != 0)]
+                if len(src) == 1 and r.axis_map[j] != src[0]:
+                    problems.append(f"model: result axis {j} <- source axis {r.axis_map[j]}, numpy: {src[0]}")
+    return dict(violated=bool(problems), observed="; ".join(problems[:3]) or "ok", expected="model of numpy indexing agrees with numpy")
+
+
+# ---- concretisation of counter-models
+
+
+def _cap(v, lo, hi, default):
+    if not isinstance(v, int):
+        return default
+    return max(lo, min(hi, v))
+
+
+def gi_concretize_for(cfg, ks, alphabets, reduced, edge):
+    def conc(ev):
+        clsname, d = cfg
+        k = ks[_cap(ev("pk_k", 0), 0, len(ks) - 1, 0)]
+        forms = gi_forms(d, k, reduced or edge)
+        form = forms[_cap(ev("pk_form", 0), 0, len(forms) - 1, 0)]
+        alpha = alphabets[_cap(ev("pk_alphabet", 0), 0, len(alphabets) - 1, 0)] if k >= 1 else alphabets[0]
+        kinds = []
+        for p in range(k):
+            opts = [x for x in ALPHABETS[alpha] if not (x == "l" and "l" in kinds)]
+            kinds.append(opts[_cap(ev(f"pk_kind{p}", 0), 0, len(opts) - 1, 0)])
+        shape = [_cap(ev(f"ds_a_n{i}", 3), 2, 5, 3) for i in range(d)]
+        ell = int(form.split("@")[1]) if form.startswith("ellipsis") else None
+        spec = []
+        for p, kd in enumerate(kinds):
+            n = shape[p if (ell is None or p < ell) else p + (d - k)]
+            if kd == "i":
+                v = ev(f"ix{p}", 0)
+                v = v if isinstance(v, int) else 0
+                spec.append({"i": v if (edge and not (-n <= v < n)) else ((v + n) % (2 * n)) - n})
+            elif kd in ("s", "t", "u"):
+                a = None if ev(f"sa{p}_none", True) else _cap(ev(f"sa{p}", 0), -n - 1, n + 1, 0)
+                b = None if ev(f"sb{p}_none", True) else _cap(ev(f"sb{p}", n), -n - 1, n + 1, n)
+                st = None if kd == "s" else 1 if kd == "u" else _cap(ev(f"st{p}", 2), -3, 3, 2)
+                spec.append({"s": [a, b, st]})
+            else:
+                L = _cap(ev(f"li{p}_len", 2), 2, 3, 2)
+                spec.append({"l": [(j * (n - 1)) % n for j in range(L)]})
+        if ell is not None:
+            spec = spec[:ell] + ["..."] + spec[ell:]
+        bare = form == "bare"
+        if bare and k == 0:
+            spec = ["..."]
+        return dict(cls=clsname, shape=shape, ops=[["getitem", spec, bare]], no_raise=not edge)
+    return conc
+
+
+for _c in C_GETITEM:
+    pass
+
+
+def _attach():
+    fam_by = {}
+    for c in VALIDATORS + SETTER_CONTRACTS + INIT_CONTRACTS + FA_CONTRACTS:
+        c.rt, c.rt_family = rt_validators, fam_validators
+    for c in (C_SET_ARRAY, C_SET_NAME, C_SET_SU, C_COPY, C_COPY4, C_CCA, C_CCA4):
+        c.rt, c.rt_family = rt_history, fam_ops
+    for c in OPS:
+        kind = {"pad": "pad", "crop": "crop", "bin": "bin", "fourier_resample": "resample"}[c.func.rsplit(".", 1)[1]]
+        cfg = c.cfg
+
+        def fam(tier="quick", seed=0, _k=kind, _cfg=cfg):
+            for x in fam_ops(tier, seed):
+                if x["ops"][0][0] == _k and (x["cls"], len(x["shape"])) == _cfg:
+                    yield x
+            for op in OPS_ALPHABET:
+                if op[0] == _k:
+                    yield dict(cls=_cfg[0], shape=_shape(_cfg[1], 5), ops=[["getitem", [{"s": [1, None, None]}], False], op, ["copy"]])
+
+        c.rt, c.rt_family = rt_history, fam
+    for c in C_GETITEM:
+        cfg = c.cfg
+
+        def fam(tier="quick", seed=0, _cfg=cfg):
+            for x in fam_getitem(tier, seed):
+                if (x["cls"], len(x["shape"])) == _cfg:
+                    yield x
+
+        c.rt, c.rt_family = rt_history, fam
+        c.concretize = gi_concretize_for(*c.enum)
+
+
+_attach()
+
 LEMMAS = []
-BOUNDED = []
-TRUSTED = []
-ASSUMPTIONS = []
-EXPLANATION = ""
+def fam_model(tier="quick", seed=0):
+    return itertools.islice(fam_index_vectors(tier, seed), seed % 6 if tier == "quick" else 0, None, 6 if tier == "quick" else 1)
+
+
+def _moved(inp):
+    """input class of the known finding: an integer index and a list index separated by a slice (numpy moves the list axis first)"""
+    spec = inp["ops"][0][1]
+    adv = [i for i, e in enumerate(spec) if e != "..." and ("i" in e or "l" in e)]
+    return any(e != "..." and "l" in e for e in spec) and adv != list(range(adv[0], adv[-1] + 1))
+
+
+BOUNDED = [
+    Bounded.from_rt("index-kind vectors incl. forms outside the deductive enumeration budget", rt_history, fam_index_vectors,
+                    "ndim 1..4 (thorough 1..5); per position int / slice / stepped / negative-step slice / list (<=1 list); every tuple length, bare and every Ellipsis position; shapes 3-4 per axis",
+                    klass=lambda inp, res: "list-axis-moved-first" if "comes from source axis" in (res.get("observed") or "") and _moved(inp) else "any"),
+    Bounded.from_rt("operation histories (replay of the contracts on the real classes)", rt_history, fam_histories,
+                    "all histories of depth <=2 over a 14-op alphabet for every (class, ndim) configuration, depth 3 for ndim<=2 (thorough: all), 6 (60) random histories of depth 12 incl. failing operations"),
+    Bounded.from_rt("single operations, both variants, argument errors", rt_history, fam_ops, "every op of the alphabet + 12 invalid calls, every (class, ndim) configuration"),
+    Bounded.from_rt("conformance of the trusted numpy indexing model with numpy", rt_numpy_model, fam_model,
+                    "every 6th (thorough: every) index form of the family above: result shape, sampled elements, source axis of every result axis, view vs copy"),
+    Bounded.from_rt("validators / constructors on array-likes", rt_validators, fam_validators,
+                    "ndim 0..5 x lengths 0..6 x scalar/int/list/tuple/ndarray/int-ndarray; ndarray and nested-list data; all five classes"),
+]
+
+
+# ------------------------------------------------------------------------------------------------
+# property-level lemmas: the history quantifier
+# ------------------------------------------------------------------------------------------------
+
+OP_ALPHABET_CONTRACTS = ["from_array", "copy", "array/origin/sampling/units/name/signal_units setters", "pad", "crop", "bin", "fourier_resample", "__getitem__"]
+
+
+def lemma_history(ctx):
+    """Induction step over an arbitrary operation sequence, from the contract statements alone.  State of one dataset: lengths of the three
+    calibration containers, ndim, and the dimension k its class is registered for (0 = generic Dataset).  Every op contract REQUIRES exactly
+    Inv(self) and ENSURES Inv of every dataset it returns or modifies (clauses Inv(result) / Inv(self) above); setters and failing calls
+    keep ndim.  Hence Inv holds after every finite history that starts with from_array."""
+    Lo, Ls, Lu, n, k = z3.Ints("len_origin len_sampling len_units ndim registered_dim")
+    Lo2, Ls2, Lu2, n2, k2 = z3.Ints("len_origin' len_sampling' len_units' ndim' registered_dim'")
+    inv = lambda a, b, c, d, e: z3.And(a == d, b == d, c == d, z3.Or(e == 0, e == d))
+    reg = sorted(Dataset._registry)
+    out = [
+        ("base:from_array-establishes-Inv", [Lo == n, Ls == n, Lu == n, z3.Or(k == 0, k == n)], inv(Lo, Ls, Lu, n, k)),
+        ("step:op-ensures-Inv-of-its-target", [inv(Lo, Ls, Lu, n, k), Lo2 == n2, Ls2 == n2, Lu2 == n2, z3.Or(k2 == 0, k2 == n2)], inv(Lo2, Ls2, Lu2, n2, k2)),
+        ("step:calibration-setter-keeps-Inv", [inv(Lo, Ls, Lu, n, k), Lo2 == n, Ls2 == Ls, Lu2 == Lu, n2 == n, k2 == k], inv(Lo2, Ls2, Lu2, n2, k2)),
+        ("step:array-setter-keeps-ndim-hence-Inv", [inv(Lo, Ls, Lu, n, k), Lo2 == Lo, Ls2 == Ls, Lu2 == Lu, n2 == n, k2 == k], inv(Lo2, Ls2, Lu2, n2, k2)),
+        ("step:failed-call-changes-nothing", [inv(Lo, Ls, Lu, n, k), Lo2 == Lo, Ls2 == Ls, Lu2 == Lu, n2 == n, k2 == k], inv(Lo2, Ls2, Lu2, n2, k2)),
+        ("getitem:class-rule-implies-class-matches-ndim",
+         [inv(Lo, Ls, Lu, n, k), z3.If(n2 == n, k2 == k, z3.If(z3.Or(*[n2 == r for r in reg]), k2 == n2, k2 == 0))], z3.Or(k2 == 0, k2 == n2)),
+    ]
+    return out
+
+
+def lemma_frames(ctx):
+    """`source bit-identical` over a history although __getitem__/crop results are numpy VIEWS of older datasets: every op contract states that
+    no pre-existing buffer is written (write counters unchanged), so the contents of every buffer alive before step j are the same after step j."""
+    w = z3.Function("writes_after_step", z3.IntSort(), z3.IntSort(), z3.IntSort())  # (buffer id, step) -> number of writes so far
+    b, j, m = z3.Ints("buffer step m")
+    hyp = [z3.ForAll([b, j], z3.Implies(j >= 0, w(b, j + 1) == w(b, j))), m >= 0, w(b, m) == w(b, 0)]
+    return [("no-write-per-step=>no-write-over-the-history (induction step)", hyp, w(b, m + 1) == w(b, 0))]
+
+
+LEMMAS = [Lemma("history-induction", lemma_history, uses=OP_ALPHABET_CONTRACTS), Lemma("frames-compose", lemma_frames, uses=OP_ALPHABET_CONTRACTS)]
+
+TRUSTED = [
+    "pyvc engine (AST interpreter, path exploration, Obj/SymArr value domain, write counters on array buffers), z3, cvc5",
+    "numpy indexing model pyvc/lib/c03_models.np_index (A6): slice semantics = CPython PySlice_AdjustIndices for any start/stop/step sign; integer + 1-D list "
+    "indices; the list axis replaces adjacent advanced indices in place and comes FIRST when a slice or Ellipsis separates them; basic indexing = view, "
+    "list indexing = copy.  Validated against numpy by the bounded check `conformance of the trusted numpy indexing model with numpy` (not proved)",
+    "numpy provenance rules: np.array / astype / copy / flatten / np.pad / np.sum / fft results are new buffers; np.asarray(x) IS x for an ndarray; "
+    "x.real, expand_dims, reshape, basic slices are views of x; np.zeros/ones/full are new",
+    "np.pad / np.sum / reshape / fftn / ifftn / fftshift / ifftshift / .real are deterministic functions of (contents, parameters) with numpy's shape rule; "
+    "their VALUES are uninterpreted (C06 owns the conservation laws); round() is a function of its argument within 1/2 of it (A3)",
+    "builtin models: zero-argument super() resolved along the real MRO, dir() of an abstract object = dir(class) + instance fields, dict()/list methods store "
+    "symbolic values natively",
+    "induction over the operation sequence (lemma history-induction / frames-compose give the step; the schema itself is trusted)",
+]
+ASSUMPTIONS = [
+    "A1 floats are reals; A2 machine integers are mathematical; A6 numpy contracts as listed under trusted_base",
+    "ndim 1..5 (0..5 for validators/constructors) and the five classes Dataset, Dataset2d, Dataset3d, Dataset4d, Dataset4dstem are enumerated; axis lengths >= 1 "
+    "(zero-length axes are outside the property's range: fourier_resample divides by the axis length), contents, calibration values, widths, factors, "
+    "slice bounds and steps, list lengths and entries are symbolic",
+    "deductive domain of the array argument: a numpy ndarray (lists / nested lists / scalars go through np.array natively: bounded check "
+    "`validators / constructors on array-likes`); names are concrete strings (not part of the property); dtype only as `is complex` flag",
+    "__getitem__ enumeration budget: per explicit position int | slice | slice with symbolic step (not in {0,1}) | list of symbolic length, at most ONE list "
+    "(with two lists numpy merges axes, the statement's `kept axes` is undefined there; the real code raises ValueError - observed, not covered); slices with and "
+    "without step are not mixed inside one index; Ellipsis at the start / after the first entry / at the end; ndim 4-5: Ellipsis forms with <= 2 explicit "
+    "entries; subclasses: tuple and bare forms, stepped slices with <= 2 entries.  Steps 0 / 1 and out-of-range integers are proved on the edge family "
+    "(<= 2 explicit entries).  Every form left out is covered by the bounded check `index-kind vectors ...` (not proved)",
+    "pad/crop/bin/fourier_resample argument forms: scalar / pair / per-axis widths, output_shape, int / tuple factors, axes None / int / (0, last); "
+    "fourier_resample deductively with ONE resampled axis (all axes for ndim 1) because every resampled axis multiplies the paths by 12; other axis sets: "
+    "bounded check `operation histories`",
+    "custom attributes are represented by one array-valued and one scalar attribute plus _metadata/_file_path (and the two virtual-image dicts, empty, for "
+    "Dataset4dstem); nested mutable metadata is shallow-copied by the real code (not part of `data and calibration`)",
+]
+EXPLANATION = ("VCs generated from the real source of Dataset.* / Dataset{2d,3d,4d,4dstem}.{__init__,from_array} / validators by symbolic execution over abstract "
+               "dataset objects (array = index function + buffer identity + write counter); callees through their contracts; in-place == copying by executing "
+               "the real body twice on twin objects; z3 discharges every obligation")
